@@ -70,7 +70,7 @@ func firstAnswer(out string) string {
 	return "error"
 }
 
-// parseValues parses the answer of (get-value (a b c)): ((a 1) (b (- 2)) ...)
+// parseValues parses the answer of (get-value (t1 t2 ...)): ((t1 v1) (t2 v2) ...) where terms and values are s-expressions.
 func parseValues(out string) map[string]string {
 	i := strings.Index(out, "((")
 	if i < 0 {
@@ -78,31 +78,43 @@ func parseValues(out string) map[string]string {
 	}
 	toks := sexpTokens(out[i:])
 	m := map[string]string{}
-	// toks: ( ( name value... ) ( name value ) )
-	j := 1
-	for j < len(toks) && toks[j] == "(" {
-		j++
-		name := toks[j]
-		j++
+	readSexp := func(j int) (string, int) {
+		if j >= len(toks) {
+			return "", j
+		}
+		if toks[j] != "(" {
+			return toks[j], j + 1
+		}
 		depth := 0
 		var parts []string
 		for j < len(toks) {
+			parts = append(parts, toks[j])
 			if toks[j] == "(" {
 				depth++
 			} else if toks[j] == ")" {
+				depth--
 				if depth == 0 {
+					j++
 					break
 				}
-				depth--
 			}
-			parts = append(parts, toks[j])
 			j++
 		}
-		j++
 		v := strings.Join(parts, " ")
 		v = strings.ReplaceAll(v, "( ", "(")
 		v = strings.ReplaceAll(v, " )", ")")
-		m[name] = v
+		return v, j
+	}
+	j := 1
+	for j < len(toks) && toks[j] == "(" {
+		j++
+		var name, val string
+		name, j = readSexp(j)
+		val, j = readSexp(j)
+		if j < len(toks) && toks[j] == ")" {
+			j++
+		}
+		m[name] = val
 	}
 	return m
 }
@@ -146,6 +158,21 @@ func checkFunction(e *Enc, tier string, seed int, keepDir string) []*Result {
 	var redo []int
 	for i, o := range e.obls {
 		a := answers[o.Name]
+		if len(o.Cases) > 0 {
+			a = "unsat"
+			o.caseSel = -1
+			for k := range o.Cases {
+				ak := answers[fmt.Sprintf("%s##%d", o.Name, k)]
+				if ak != "unsat" {
+					a = ak
+					if a == "" {
+						a = "unknown"
+					}
+					o.caseSel = k
+					break
+				}
+			}
+		}
 		r := &Result{Ob: o, Status: a, Solver: solvers[0].Name + " (incremental)", Secs: per, Size: o.Prefix}
 		results[i] = r
 		want := "unsat"
